@@ -1,7 +1,7 @@
 (* C11 -- power and energy agree across train, consist and locomotive levels. Pinned statements only. *)
 From Coq Require Import Reals List Bool.
 From AltModel Require Import Num Interp Powertrain Loco Consist TrainEnergy SpeedPoints PathGeom Resist Braking TrainStep TrainFull WholeSim.
-From AltProofs Require Import NumR LocoP C08P ConsistP C10P C01P C11P SpeedPointsP PathGeomP BrakingP TrainFullP WholeSimP EndToEndP WholeSplitP TimedTraceP.
+From AltProofs Require Import NumR LocoP C08P ConsistP C10P C01P C11P SpeedPointsP PathGeomP BrakingP TrainFullP WholeSimP EndToEndP WholeSplitP TimedTraceP TimedWalkExample.
 Import ListNotations.
 Open Scope R_scope.
 
@@ -126,3 +126,13 @@ Theorem C11_dispatched_train_is_whole_steps : forall fuel_bp fuel_steps (net : l
   sl_timed_walk fuel_bp fuel_steps net tp tl rp fmax fb st cache con = Ok x' ->
   tw_trace fmax any_pts any_step ({| sl_st := st; sl_cache := cache; sl_fb := fb; sl_idx := 0 |}, con) x'.
 Proof. intros fuel_bp fuel_steps net tp tl rp fmax. exact (sl_timed_walk_trace fmax fuel_bp fuel_steps net tp tl rp). Qed.
+
+(* the hypothesis of the dispatched-train statements (here and in C01, C02, C03, C08, C09, C10, C12, C13) is satisfiable on a
+   non-trivial input: the same definitions at binary64, evaluated by the kernel, accept a generated route with a timed
+   path and take more than 100 steps (proofs/TimedWalkExample.v; the real walk_timed_path returns the bit-identical state) *)
+Example C11_dispatched_train_hypothesis_satisfiable :
+  TimedWalkExample.accepted
+    (sl_timed_walk (N.to_nat TimedWalkExample.tw_fuel_bp) (N.to_nat TimedWalkExample.tw_fuel_steps) TimedWalkExample.tw_net
+       TimedWalkExample.tw_tp TimedWalkExample.tw_tl TimedWalkExample.tw_rp TimedWalkExample.tw_fmax TimedWalkExample.tw_fb
+       TimedWalkExample.tw_st TimedWalkExample.tw_cache TimedWalkExample.tw_con) = true.
+Proof. exact TimedWalkExample.timed_walk_accepts. Qed.
